@@ -7,6 +7,7 @@ package busdrv
 import (
 	"context"
 	"encoding/json"
+	"errors"
 	"fmt"
 	"math/rand/v2"
 	"reflect"
@@ -35,6 +36,7 @@ type Op struct {
 	Val    string   `json:"val,omitempty"`
 	Ctx    string   `json:"ctx,omitempty"`
 	Yield  int      `json:"yield,omitempty"` // scheduling noise inside a handler body (stress mode)
+	PFail  string   `json:"pfail,omitempty"` // pub on a bus with a store: "rej" the store rejects the append, "hang" it blocks until its context is done
 }
 
 // Cfg is the bus configuration of a script.
@@ -46,7 +48,12 @@ type Cfg struct {
 	AfterCtx  bool `json:"afterCtx"`
 	PanicH    bool `json:"panicH"`
 	Closer    bool `json:"closer"`
+	Store     bool `json:"store,omitempty"`    // WithStore(recording store): appends are trace events
+	PTimeout  bool `json:"ptimeout,omitempty"` // WithPersistenceTimeout(persistTimeout)
+	PErrH     bool `json:"perrH,omitempty"`    // WithPersistenceErrorHandler
 }
+
+const persistTimeout = 15 * time.Millisecond
 
 // Script is one scenario: a fresh bus and one operation list per driver goroutine.
 type Script struct {
@@ -103,7 +110,22 @@ const (
 	keyPub    ctxKey = "verif-pub"
 	keyObsPub ctxKey = "verif-obs-pub"
 	keyTok    ctxKey = "verif-tok"
+	keySpan   ctxKey = "verif-span"
 )
+
+// span is what a tracer would keep in the context: the innermost started-and-not-completed callback pair.
+type span struct {
+	kind string // "pub", "persist", "h"
+	id   int
+}
+
+func spanOf(ctx context.Context) span {
+	if ctx == nil {
+		return span{}
+	}
+	s, _ := ctx.Value(keySpan).(span)
+	return s
+}
 
 // Drv executes scripts against one real bus.
 type Drv struct {
@@ -119,12 +141,15 @@ type Drv struct {
 	nPub atomic.Int64
 	nTok atomic.Int64
 	rnd  *rand.Rand
-	otelDone func(lines [][]byte, closer bool) map[string]any // compares the SDK's spans and counters with the recorded trace
+	pfail sync.Map // pub -> scripted outcome of its append
+	pubT  sync.Map // pub -> the name its event type is persisted under
+	ptok  sync.Map // pub -> token of its OnPersistStart
+	otelDone func(lines [][]byte, cfg Cfg) map[string]any // compares the SDK's spans and counters with the recorded trace
 }
 
 // NewOtel, when set, gives every bus with observability a real OpenTelemetry implementation in front of the
 // recording one, and a function that checks what the SDK recorded against the recorded trace.
-var NewOtel func() (eb.Observability, func(lines [][]byte, closer bool) map[string]any)
+var NewOtel func() (eb.Observability, func(lines [][]byte, cfg Cfg) map[string]any)
 
 type closerStore struct{ d *Drv }
 
@@ -135,6 +160,56 @@ func (s *closerStore) Read(ctx context.Context, from eb.Offset, limit int) ([]*e
 	return nil, from, nil
 }
 func (s *closerStore) Close() error {
+	s.d.Rec.Emit(map[string]any{"e": "close"})
+	return nil
+}
+
+// recStore is the store of a bus with cfg.Store: every append is a trace event, emitted inside Append (that is, under
+// ebu's storeMu: the order of the lines is the order of the log).
+type recStore struct {
+	d   *Drv
+	n   atomic.Int64
+}
+
+func (s *recStore) Append(ctx context.Context, e *eb.Event) (eb.Offset, error) {
+	p := ctxPub(ctx, keyPub)
+	var dec struct {
+		Pub int
+		Val string
+	}
+	want, _ := s.d.pubT.Load(p)
+	ok := json.Unmarshal(e.Data, &dec) == nil && dec.Pub == p && e.Type == want && !e.Timestamp.IsZero()
+	mode, _ := s.d.pfail.Load(p)
+	if mode == "hang" && !s.d.cfg.PTimeout {
+		mode = "rej"
+	}
+	switch mode {
+	case "rej":
+		s.d.Rec.Emit(map[string]any{"e": "append", "p": p, "res": false, "ok": ok})
+		return "", errors.New("store: append rejected")
+	case "hang": // a store that honours its context and is stuck: only the persistence timeout ends the call
+		select {
+		case <-ctx.Done():
+			s.d.Rec.Emit(map[string]any{"e": "append", "p": p, "res": false, "ok": ok})
+			return "", ctx.Err()
+		case <-time.After(200 * persistTimeout):
+			s.d.Rec.Emit(map[string]any{"e": "append", "p": p, "res": false, "ok": false, "why": "the context of a stuck append was not done 200 persistence timeouts later"})
+			return "", errors.New("store: stuck")
+		}
+	}
+	n := s.n.Add(1)
+	s.d.Rec.Emit(map[string]any{"e": "append", "p": p, "res": true, "ok": ok})
+	return eb.Offset(fmt.Sprintf("%020d", n)), nil
+}
+func (s *recStore) Read(ctx context.Context, from eb.Offset, limit int) ([]*eb.StoredEvent, eb.Offset, error) {
+	return nil, from, nil
+}
+
+type closerRecStore struct {
+	recStore
+}
+
+func (s *closerRecStore) Close() error {
 	s.d.Rec.Emit(map[string]any{"e": "close"})
 	return nil
 }
@@ -157,21 +232,23 @@ func (o obs) OnPublishStart(ctx context.Context, name string, event any) context
 	}
 	p := pubOf(event)
 	o.d.Rec.Emit(map[string]any{"e": "pstart", "p": p, "ok": name == eb.EventType(event) && ctxPub(ctx, keyPub) == p})
-	return context.WithValue(ctx, keyObsPub, p)
+	return context.WithValue(context.WithValue(ctx, keyObsPub, p), keySpan, span{"pub", p})
 }
 func (o obs) OnPublishComplete(ctx context.Context, name string) {
 	if o.otel != nil {
 		o.otel.OnPublishComplete(ctx, name)
 	}
-	o.d.Rec.Emit(map[string]any{"e": "pdone", "p": ctxPub(ctx, keyObsPub), "ok": true})
+	p := ctxPub(ctx, keyObsPub)
+	o.d.Rec.Emit(map[string]any{"e": "pdone", "p": p, "ok": spanOf(ctx) == span{"pub", p}}) // complete gets the context its start returned
 }
 func (o obs) OnHandlerStart(ctx context.Context, name string, async bool) context.Context {
 	if o.otel != nil {
 		ctx = o.otel.OnHandlerStart(ctx, name, async)
 	}
 	tok := int(o.d.nTok.Add(1))
-	o.d.Rec.Emit(map[string]any{"e": "hstart", "p": ctxPub(ctx, keyObsPub), "async": async, "tok": tok})
-	return context.WithValue(ctx, keyTok, tok)
+	p := ctxPub(ctx, keyObsPub)
+	o.d.Rec.Emit(map[string]any{"e": "hstart", "p": p, "async": async, "tok": tok, "pok": spanOf(ctx) == span{"pub", p}})
+	return context.WithValue(context.WithValue(ctx, keyTok, tok), keySpan, span{"h", tok})
 }
 func (o obs) OnHandlerComplete(ctx context.Context, d time.Duration, err error) {
 	if o.otel != nil {
@@ -183,12 +260,32 @@ func (o obs) OnPersistStart(ctx context.Context, name string, pos int64) context
 	if o.otel != nil {
 		ctx = o.otel.OnPersistStart(ctx, name, pos)
 	}
-	return ctx
+	if !o.d.cfg.Store {
+		return ctx
+	}
+	p := ctxPub(ctx, keyObsPub)
+	tok := int(o.d.nTok.Add(1))
+	o.d.ptok.Store(p, tok)
+	o.d.Rec.Emit(map[string]any{"e": "perss", "p": p, "ok": spanOf(ctx) == span{"pub", p}})
+	return context.WithValue(ctx, keySpan, span{"persist", tok})
 }
 func (o obs) OnPersistComplete(ctx context.Context, d time.Duration, err error) {
 	if o.otel != nil {
 		o.otel.OnPersistComplete(ctx, d, err)
 	}
+	if !o.d.cfg.Store {
+		return
+	}
+	p := ctxPub(ctx, keyObsPub)
+	tok, _ := o.d.ptok.Load(p)
+	o.d.Rec.Emit(map[string]any{"e": "persd", "p": p, "err": err != nil, "ok": spanOf(ctx) == span{"persist", tokInt(tok)}})
+}
+
+func tokInt(v any) int {
+	if i, ok := v.(int); ok {
+		return i
+	}
+	return -1
 }
 
 func ctxPub(ctx context.Context, k ctxKey) int {
@@ -293,8 +390,21 @@ func NewDrv(cfg Cfg, rec *Recorder, seed uint64) *Drv {
 			d.Rec.Emit(map[string]any{"e": "panich", "r": r, "p": p, "ok": ok})
 		}))
 	}
-	if cfg.Closer {
+	switch {
+	case cfg.Store && cfg.Closer:
+		opts = append(opts, eb.WithStore(&closerRecStore{recStore{d: d}}))
+	case cfg.Store:
+		opts = append(opts, eb.WithStore(&recStore{d: d}))
+	case cfg.Closer:
 		opts = append(opts, eb.WithStore(&closerStore{d}))
+	}
+	if cfg.PTimeout {
+		opts = append(opts, eb.WithPersistenceTimeout(persistTimeout))
+	}
+	if cfg.PErrH {
+		opts = append(opts, eb.WithPersistenceErrorHandler(func(event any, t reflect.Type, err error) {
+			d.Rec.Emit(map[string]any{"e": "perrh", "p": pubOf(event), "ok": t == reflect.TypeOf(event) && err != nil})
+		}))
 	}
 	d.Bus = eb.New(opts...)
 	rec.Emit(map[string]any{"e": "new", "cfg": cfg})
@@ -309,8 +419,39 @@ func (d *Drv) context(name string) ctxPair {
 	}
 	ctx, cancel := context.WithCancel(context.Background())
 	c := ctxPair{ctx, cancel}
+	if n := name[len(name)-1]; n >= '0' && n <= '9' && (n-'0')%2 == 0 {
+		// contexts with an even number end the way a deadline does: Err() is context.DeadlineExceeded, and they
+		// have a (distant) deadline of their own; "cancel" makes the deadline strike
+		dc := &deadlineCtx{done: make(chan struct{}), at: time.Now().Add(time.Hour)}
+		c = ctxPair{dc, dc.expire}
+	}
 	d.ctxs[name] = c
 	return c
+}
+
+// deadlineCtx is a context.Context that ends with context.DeadlineExceeded when expire is called.
+type deadlineCtx struct {
+	mu   sync.Mutex
+	done chan struct{}
+	err  error
+	at   time.Time
+}
+
+func (c *deadlineCtx) Deadline() (time.Time, bool) { return c.at, true }
+func (c *deadlineCtx) Done() <-chan struct{}       { return c.done }
+func (c *deadlineCtx) Value(any) any               { return nil }
+func (c *deadlineCtx) Err() error {
+	c.mu.Lock()
+	defer c.mu.Unlock()
+	return c.err
+}
+func (c *deadlineCtx) expire() {
+	c.mu.Lock()
+	defer c.mu.Unlock()
+	if c.err == nil {
+		c.err = context.DeadlineExceeded
+		close(c.done)
+	}
 }
 
 // OnHandler is called by every generated handler literal.
@@ -381,6 +522,12 @@ func (d *Drv) Exec(g int, o Op) {
 		}
 		ctx = context.WithValue(ctx, keyPub, p)
 		d.pubG.Store(p, g)
+		if o.PFail != "" {
+			d.pfail.Store(p, o.PFail)
+		}
+		if d.cfg.Store {
+			d.pubT.Store(p, eb.EventType(reflect.New(gen.ByName(o.T).RT).Elem().Interface()))
+		}
 		d.Rec.Emit(map[string]any{"e": "pcall", "g": g, "p": p, "t": o.T, "val": o.Val, "ctx": ctxName})
 		gen.ByName(o.T).Pub(d.Bus, ctx, p, o.Val)
 		d.Rec.Emit(map[string]any{"e": "pret", "g": g, "p": p})
@@ -501,7 +648,7 @@ func RunScript(s Script, rec *Recorder, seed uint64, watchdog time.Duration) (fi
 			d.Exec(1, Op{Op: "wait"})
 		}
 		if d.otelDone != nil {
-			rec.Emit(d.otelDone(rec.Lines(), s.Cfg.Closer))
+			rec.Emit(d.otelDone(rec.Lines(), s.Cfg))
 		}
 		done <- esc.Load()
 	}()
